@@ -124,6 +124,9 @@ const (
 	// FConflictFresh: like conflict, and the informer caches have caught up with the foreign write by
 	// the time the code re-reads them (what conflict-retry loops rely on)
 	FConflictFresh = "conflictFresh"
+	// FConflictPause: the write on the set conflicts because the user has just set the paused-reconcile annotation on
+	// it (that edit is what moved the resourceVersion); the caches have caught up by the time the code re-reads
+	FConflictPause = "conflictPause"
 	FGone          = "gone"
 	FExists        = "exists"
 	FCrashBefore   = "crashBefore"
@@ -462,6 +465,18 @@ func (w *World) react(action clienttesting.Action) (bool, runtime.Object, error)
 		w.foreignTouch(c.Resource, c.Key)
 		w.S.SyncCaches()
 		w.fillCaches()
+	case FConflictPause:
+		if cur := w.S.API.Sets[c.Key]; c.Resource == "statefulsets" && cur != nil {
+			n := cur.DeepCopy()
+			if n.Annotations == nil {
+				n.Annotations = map[string]string{}
+			}
+			n.Annotations["paused-reconcile"] = "true"
+			n.ResourceVersion = w.S.nextRV()
+			w.S.API.Sets[c.Key] = n
+			w.S.SyncCaches()
+			w.fillCaches()
+		}
 	case FGone:
 		w.foreignRemove(c.Resource, c.Key)
 	case FExists:
